@@ -78,6 +78,12 @@ def resolve_tps(recipe, rendered):
             elif where[0] == 'absent':
                 d['path'] = os.path.basename(files[where[1] % len(files)]['path'])
                 d['name'] = 'no_such_function'
+            elif where[0] == 'numeric':
+                # a method name that reads like a line number of the same file (no function can have it: the tracepoint
+                # never acts - and it must not get in the way of the line tracepoint on that line)
+                st_ = rendered.stmts[where[1] % nst]
+                d['path'] = os.path.basename(files[st_['file']]['path'])
+                d['name'] = str(st_['line'])
             elif where[0] == 'mirror':
                 # the name of a function of one file, configured for the other file of the program
                 fi = rendered.func_info[where[1] % len(rendered.func_info)]
@@ -221,6 +227,7 @@ class C03(Prop):
                                  st.tuples(st.just('func'), st.integers(0, 5)),
                                  st.tuples(st.just('absent'), st.integers(0, 1)),
                                  st.tuples(st.just('mirror'), st.integers(0, 5)),
+                                 st.tuples(st.just('numeric'), st.integers(0, 60)),
                                  st.tuples(st.just('other'), st.just(0)))
         tp = st.one_of(
             fd({'kind': st.just('line'), 'where': line_where.map(list),
